@@ -44,5 +44,32 @@ theorem it_next (g' : Val) (start off idx : Nat) (e : Val) (l : Nat) :
       .val (vSome (vTuple [.ctor 896 [e, .nat l], .nat idx, .nat off])) [some (encIter g' (off + l) (idx + 1))] :=
   ⟨by kernel_rfl, by kernel_rfl⟩
 
+/-- the element iterator: its `inner` answers `next` with `nx`; the parent answers `get_or_add_element(g, i, o)` with `GOT(g, i, o)` -/
+def ecSem (nx : Option (Val × Val × Val)) : Sem :=
+  { Sem.none with
+    call := fun f args => if f == N.Iter.new then (match args with | [p] => .ok (.ctor 899 [p]) .unit | _ => .unknown) else .unknown
+    meth := fun m recv args =>
+      match recv, args with
+      | .ctor 899 [p], [] =>
+        if m == N.next then .ok (vOpt (nx.map fun t => vTuple [t.1, t.2.1, t.2.2])) (.ctor 899 [p]) else .unknown
+      | .atom 6, [g, i, o] => if m == N.get_or_add_element then .ok (.ctor 900 [g, i, o]) recv else .unknown
+      | _, _ => .unknown }
+
+/-- both child iterators are made of the shared core over the parent, and the parent -/
+theorem children_new (nx : Option (Val × Val × Val)) :
+    call (ecSem nx) 20 Rs.Gen.ec_new [.unit, .atom 6] (xs := []) =
+      .val (.strct [(N.field.inner, .ctor 899 [.atom 6]), (N.field.parent, .atom 6)]) []
+    ∧ call (ecSem nx) 20 Rs.Gen.nc_new [.unit, .atom 6] (xs := []) =
+      .val (.strct [(N.field.inner, .ctor 899 [.atom 6]), (N.field.parent, .atom 6)]) [] :=
+  ⟨by kernel_rfl, by kernel_rfl⟩
+
+/-- `SyntaxElementChildren::next`: what the core hands out — green child, index, offset — goes unchanged and in this order to the
+    parent's `get_or_add_element`, whose answer is the item -/
+theorem ec_next (g i o : Val) :
+    call (ecSem none) 30 Rs.Gen.ec_next [.strct [(N.field.inner, .ctor 899 [.atom 6]), (N.field.parent, .atom 6)]] (xs := []) = .val vNone []
+    ∧ call (ecSem (some (g, i, o))) 30 Rs.Gen.ec_next [.strct [(N.field.inner, .ctor 899 [.atom 6]), (N.field.parent, .atom 6)]] (xs := []) =
+      .val (vSome (.ctor 900 [g, i, o])) [] :=
+  ⟨by kernel_rfl, by kernel_rfl⟩
+
 end Gen
 end Cst
